@@ -301,6 +301,8 @@ def run_case(case: dict) -> dict:
     try:
         o = creation.run_creation(case, os.path.join(root, "a"))
         try:
+            if o.get("degenerate_centres"):
+                return dict(verdict="discard", detail="k-means produced a non-finite centre (degenerate input for patch_num)", digest=o["digest"], steps=o["steps"])
             sig, detail, probes = evaluate(case, o)
             if sig is None and case["patch"]["mode"] == "create" and case["source"] != "random":
                 ref = _canonical_centers(case, os.path.join(root, "b"))
